@@ -313,6 +313,7 @@ EPS = np.finfo(float).eps
 
 
 TOL_C = 32.0
+TOL_DEV = 512.0  # margin on the measured round-off of the emulated kernel route
 
 
 def _scaled_cond(S):
@@ -326,36 +327,99 @@ def _scaled_cond(S):
     return float(c) if np.isfinite(c) else 1e300
 
 
-def tolerance(y, var, M, mu, Lam, chi2, logdet, d_ld):
-    """Round-off model of the kernel's route (A = inv(Ainv) by LU, Binv by the Woodbury identity, LU log-det):
-         |err(chi2)|   <~ eps ( r^T C^-1 r  +  cond_s(Ainv) |g|^T |A| |g| ),   g = M^T C^-1 r
-         |err(logdet)| <~ eps n cond_s(B)
-    cond_s = 2-norm condition number after symmetric diagonal scaling (what LU of an SPD matrix feels).
-    The constant TOL_C gives the margin; the largest observed |delta|/tol is reported in the evidence."""
+def _kernel_route(y, var, M, mu, Lam, rng=None):
+    """float64 emulation of the kernel's own arithmetic, written from the algorithm it documents:
+    Ainv accumulated epoch by epoch -> A by LAPACK dgetrf/dgetri -> Binv by the Woodbury identity, subtracting one
+    (i, j) term at a time -> chi^2 as a double sum; log-determinant from dgetrf of B.  It is NOT the oracle (that is
+    the exact Cholesky form); |emulation - exact| measures how much round-off this route suffers for the given
+    input, i.e. what "numerical round-off" means here.  With rng the inputs are perturbed by ulp-sized noise."""
+    from scipy.linalg import lapack
+
+    n, nl = M.shape
+    ivar = 1.0 / var
+    if rng is not None:
+        ivar = ivar * (1 + EPS * rng.uniform(-1, 1, ivar.shape))
+    MT = np.ascontiguousarray(M.T)
+    with np.errstate(divide="ignore"):
+        Ainv = np.diag(1.0 / Lam)
+    for k in range(n):
+        Ainv = Ainv + np.outer(MT[:, k], MT[:, k] * ivar[k])
+    if rng is not None:
+        Ainv = Ainv * (1 + EPS * rng.uniform(-1, 1, Ainv.shape))
+    lu, piv, info = lapack.dgetrf(Ainv)
+    if info != 0:
+        return float("inf")
+    A, info = lapack.dgetri(lu, piv)
+    if info != 0:
+        return float("inf")
+    b = M @ mu
+    Binv = np.diag(ivar)
+    for i in range(nl):
+        left = ivar * MT[i]
+        for j in range(nl):
+            Binv = Binv - np.outer(left * A[i, j], MT[j] * ivar)
+    r = b - y
+    chi2 = float(np.sum((r[None, :] * Binv) * r[:, None]))
+    B = np.diag(var) + (M * Lam) @ M.T
+    luB, _, info = lapack.dgetrf(B)
+    if info != 0:
+        return float("inf")
+    logdet = float(np.sum(np.log(TWO_PI * np.abs(np.diag(luB)))))
+    return -0.5 * (chi2 + logdet)
+
+
+def tolerance(y, var, M, mu, Lam, chi2, logdet, d_ld, ll_exact=None):
+    """Round-off allowance for the kernel's route (LU inverse of the precision matrix, Woodbury identity, LU
+    log-det).  Two ingredients:
+      * measured: the float64 emulation of that route (plain and with ulp-sized input perturbations) is compared
+        with the exact value; the largest deviation, times TOL_C, is what we allow the kernel;
+      * analytic floor: eps (n cond_s(B) + r^T C^-1 r) for the log-determinant and the uncancelled chi^2 terms.
+    The largest observed |delta|/tol of accepted values is reported in the evidence."""
     n = len(y)
     r = y - M @ mu
     free = Lam > 0
     chi2_C = float(np.sum(r * r / var))
-    extra = 0.0
     condA = 1.0
     if free.any():
         Mf = M[:, free]
-        Ainv = np.diag(1 / Lam[free]) + (Mf.T / var) @ Mf
-        condA = _scaled_cond(Ainv)
-        g = (Mf.T / var) @ r
-        try:
-            A = np.linalg.inv(Ainv)
-            extra = float(np.abs(g) @ np.abs(A) @ np.abs(g))
-        except np.linalg.LinAlgError:
-            extra = 1e300
+        condA = _scaled_cond(np.diag(1 / Lam[free]) + (Mf.T / var) @ Mf)
     B = np.diag(var) + (M * Lam) @ M.T
     condB = _scaled_cond(B)
-    model = EPS * (n * condB + chi2_C + condA * extra)
-    tol = 1e-9 + 1e-10 * (abs(chi2) + abs(logdet) + n) + TOL_C * model + 8 * d_ld
-    return tol, {"condA": condA, "condB": condB, "chi2_C": chi2_C, "gAg": extra}
+    model = EPS * (n * condB + chi2_C)
+    ref = ll_exact if ll_exact is not None else -0.5 * (chi2 + logdet)
+    dev = 0.0
+    rng = np.random.default_rng(20240917)
+    try:
+        with np.errstate(all="ignore"):
+            for k in range(3):
+                v = _kernel_route(y, var, M, mu, Lam, rng if k else None)
+                if np.isfinite(v):
+                    dev = max(dev, abs(v - ref))
+                else:
+                    dev = max(dev, 1e300)
+    except Exception:
+        dev = 1e300
+    tol = 1e-9 + 1e-10 * (abs(chi2) + abs(logdet) + n) + TOL_C * model + TOL_DEV * dev + 8 * d_ld
+    return tol, {"condA": condA, "condB": condB, "chi2_C": chi2_C, "route_dev": dev}
 
 
-def evaluate(prob, row, flags=(), solver="twobody", want_posterior=False):
+def tol_of(ev):
+    """Full tolerance of an evaluation (computed on demand, cached)."""
+    if "tol" not in ev:
+        ev["tol"], ev["tol_parts"] = tolerance(ev["y"], ev["var"], ev["M"], ev["mu"], ev["Lam"], ev["chi2"],
+                                               ev["logdet"], abs(ev["ll64"] - ev["ll"]), ll_exact=ev["ll"])
+    return ev["tol"]
+
+
+def ratio_of(ev, value):
+    """|value - closed form| / tolerance, computing the expensive part of the tolerance only when needed."""
+    d = abs(value - ev["ll"])
+    if d <= ev["tol_floor"]:
+        return d / ev["tol_floor"]
+    return d / tol_of(ev)
+
+
+def evaluate(prob, row, flags=(), solver="twobody", want_posterior=False, full_tol=False):
     """Closed-form values for one nonlinear row under a set of defect flags."""
     M = prob.design(row, solver=solver, flags=flags)
     mu, Lam = prob.linear_prior(row, flags)
@@ -366,12 +430,49 @@ def evaluate(prob, row, flags=(), solver="twobody", want_posterior=False):
     except np.linalg.LinAlgError:
         ll_ld = ll
     kappa = conditioning(var, M, Lam)
-    tol, parts = tolerance(prob.y, var, M, mu, Lam, chi2, logdet, abs(ll - ll_ld))
-    out = {"ll": ll_ld, "ll64": ll, "chi2": chi2, "logdet": logdet, "kappa": kappa, "tol": tol, "tol_parts": parts, "mu": mu, "Lam": Lam,
-           "M": M, "var": var}
+    out = {"ll": ll_ld, "ll64": ll, "chi2": chi2, "logdet": logdet, "kappa": kappa, "mu": mu, "Lam": Lam,
+           "M": M, "var": var, "y": prob.y, "n": prob.n,
+           # always a lower bound of the full tolerance: a value within tol_floor needs no further work
+           "tol_floor": 1e-9 + 1e-10 * (abs(chi2) + abs(logdet) + prob.n) + 8 * abs(ll - ll_ld)}
+    if full_tol:
+        tol_of(out)
     if want_posterior:
         out["a"], out["A"] = posterior(prob.y, var, M, mu, Lam)
     return out
+
+
+def posterior_ratio(ev, a_code, A_code):
+    """max over entries of |code - closed form| / tolerance for the conditional mean and covariance."""
+    a, A = ev["a"], ev["A"]
+    tol_of(ev)
+    condA = ev["tol_parts"]["condA"]
+    dA = np.sqrt(np.abs(np.diag(A)))
+    # floor 1e-9 (in units of the posterior standard deviations): LAPACK inverts the badly scaled precision
+    # matrix with errors that are tiny norm-wise but up to ~1e-11 relative to sqrt(A_ii A_jj)
+    c = TOL_C * EPS * max(condA, 1.0) + 1e-9
+    scaleA = np.outer(dA, dA)
+    tolA = c * scaleA + 1e-300
+    free = ev["Lam"] > 0
+    mu, Lam = ev["mu"], ev["Lam"]
+    # size of the right-hand side in the A-norm: a^T A^-1 a = rhs^T A rhs
+    if free.any():
+        Af = A[np.ix_(free, free)]
+        try:
+            q = float(a[free] @ np.linalg.solve(Af, a[free]))
+        except np.linalg.LinAlgError:
+            q = float(np.sum(a[free] ** 2 / np.maximum(np.diag(Af), 1e-300)))
+    else:
+        q = 0.0
+    tola = c * (dA * math.sqrt(abs(q)) + np.abs(a)) + 1e-300
+    a_code = np.asarray(a_code, dtype=float)
+    A_code = np.asarray(A_code, dtype=float)
+    if a_code.shape != a.shape or A_code.shape != A.shape:
+        return float("inf")
+    if not (np.all(np.isfinite(a_code)) and np.all(np.isfinite(A_code))):
+        return float("inf")
+    ra = np.max(np.abs(a_code - a) / tola)
+    rA = np.max(np.abs(A_code - A) / tolA)
+    return float(max(ra, rA))
 
 
 def subsets(flags):
